@@ -193,3 +193,96 @@ def c13(ctx):
     ctx.floor("mutators", 3)
     ctx.floor("filter", 4)
     ctx.floor("topk", 2)
+
+
+# ---------------------------------------------------------------------------
+from . import rules_tables as RT
+
+
+@prop("C15", "proof",
+      "Enumerated proof obligations over the five merge() methods, all decided syntactically/with the flow walk: (guard-first) the "
+      "compatibility test is the first statement, has no calls, raises TypeError, and the only kernel call comes after it, so a "
+      "refused merge executes nothing that writes either operand; (guard-set) the set of compared attributes equals the set derived "
+      "from the constructor signature (minus phi, plus the counter-type discriminator): no required parameter is missing and no extra "
+      "comparison refuses compatible sketches; (guard-order) the discriminator is compared before attributes a linear sketch lacks; "
+      "(ctor-attr) each compared attribute is the same-named constructor parameter as a NumPy scalar. All obligations must be discharged.",
+      trusted=("NumPy scalar != is value comparison", "Python `or` short-circuits left to right"))
+def c15(ctx):
+    RT.rule_mergeguard(ctx)
+    RA.rule_attr_type(ctx)
+    ctx.floor("guard-first", 20)
+    ctx.floor("guard-set", 18 + 5)
+    ctx.floor("guard-order", 3)
+    ctx.floor("ctor-attr", 18)
+
+
+@prop("C10", "other",
+      "Writer/reader table agreement decided for all five classes (methods resolved through the MRO): every table allocated by the "
+      "constructor in both branches is a member of save()'s np.savez and is restored by load() with np.copyto from the same member "
+      "name; every member read was written; args lists the constructor parameters in constructor order and the loader feeds them back "
+      "in that order with shared_memory forwarded; the args dtype represents unbounded parameters exactly; dtype dispatch of the module "
+      "load(), the class loaders' TypeError checks and the table dtypes agree three ways; HeavyHitters.load rebuilds the candidate cache. "
+      "Not decided: NumPy's own round trip; evolution of log sketches under identical draws.",
+      trusted=("np.savez / np.load round-trip arrays exactly",))
+def c10(ctx):
+    RT.rule_persist(ctx)
+    RA.rule_attr_type(ctx)
+    RT.rule_dispatch(ctx)
+    RT.rule_post_load(ctx)
+    RA.rule_ceil(ctx)
+    ctx.floor("persist-table", 30)
+    ctx.floor("ctor-args", 20)
+    ctx.floor("lossless-args", 14)
+    ctx.floor("dispatch", 9)
+    ctx.floor("fwd-shm", 8)
+
+
+@prop("C20", "other",
+      "Repository-side necessary conditions only: on every load path the file is read exclusively through `with np.load(filename)` "
+      "(zip container whose end-of-central-directory record is written last; no allow_pickle, no mmap), known prefix-tolerant readers "
+      "are violations and unknown readers make the check undecided; no exception handler on a load path swallows a failed read, and the "
+      "loaders return only after all members were read. That every strict prefix is rejected is a property of NumPy/zipfile and is trusted.",
+      trusted=("zip container semantics: np.load of a strict prefix of an .npz raises",))
+def c20(ctx):
+    RT.rule_reader_api(ctx)
+    RT.rule_no_swallow(ctx)
+    ctx.floor("reader-api", 9)
+    ctx.floor("no-swallow", 6)
+
+
+@prop("C16", "other",
+      "Creator/attacher agreement decided symbolically (sizes and offsets as polynomials in width, depth, max_key_len, m): the ordered "
+      "segment lists (attribute, dtype, start, end, shape) of the shared branch of __init__ and of attach_existing_shm are equal, each "
+      "segment starts where the previous one ends, its byte length equals itemsize x shape, the requested block size is their sum + 16; "
+      "the in-memory branch allocates the same dtypes/shapes; only the owner unlinks, views only close, arrays are deleted before close; "
+      "self.args reconstructs the same class through the factory; tag<->factory tables of attach_shared_memory/parallel_merging are inverse. "
+      "Alignment is deliberately not a rule (unaligned views work; DESIGN.md section 1). Not decided: OS segment lifetime.")
+def c16(ctx):
+    RT.rule_layout(ctx)
+    RT.rule_owner(ctx)
+    RT.rule_argsdict(ctx)
+    RT.rule_factory(ctx)
+    RT.rule_attach_table(ctx)
+    RA.rule_ceil(ctx)
+    ctx.floor("layout", 60)
+    ctx.floor("alloc-agree", 12)
+    ctx.floor("owner", 20)
+    ctx.floor("argsdict", 20)
+    ctx.floor("attach-table", 10)
+
+
+@prop("C12", "other",
+      "Delegation shapes and the n-gram window schema, decided structurally: update(dict) is `for key, value in keys.items(): "
+      "self.add(key, value)` (HLL: keys only), update(list) is `for key in keys: self.add(key)`, update_ngram is add_ngram per element, "
+      "sketch[key] returns self.query(key), inherited entry points dispatch through the MRO to the subclass's own add; each of the five "
+      "_add_ngram* kernels adds the whole key once iff len(key) <= n and otherwise exactly the windows key[i:i+n], i in range(len-n+1), "
+      "each once with the sketch state forwarded unchanged; add() forwards key and (capped) multiplicity to one kernel call. "
+      "Not decided: 'add(key, v) equals v unit adds' (hand argument from cons/bm-table; for log sketches only in distribution).")
+def c12(ctx):
+    RA.rule_bind(ctx)
+    RT.rule_deleg(ctx)
+    RT.rule_window(ctx)
+    RT.rule_value_fwd(ctx)
+    ctx.floor("deleg", 12)
+    ctx.floor("window", 20)
+    ctx.floor("value-fwd", 12)
